@@ -163,6 +163,13 @@ def pyfftw_call(array_in, array_out, direction='forward', axes=None,
     # Do consistency checks on the arguments
     _pyfftw_check_args(array_in, array_out, axes, halfcomplex, direction)
 
+    # A plan made for an out-of-place transform must not be executed
+    # in-place and vice versa, in that case a new plan is needed
+    if (fftw_plan_in is not None and
+            ((fftw_plan_in.input_array is fftw_plan_in.output_array) !=
+             (array_out is array_in))):
+        fftw_plan_in = None
+
     # Import wisdom if possible
     if wimport:
         try:
